@@ -158,8 +158,10 @@ theorem layersIter_spec (s : Sprite) (e : Nat) :
   rw [iterate_from s e s.numLayers 0 (by omega), List.range_eq_range']
 
 /-- the values yielded are pairwise distinct and are exactly the valid layer ids -/
-theorem layersIter_nodup (s : Sprite) : ((List.range s.numLayers).map some).Nodup :=
-  (List.nodup_range).map (fun _ _ h => Option.some.inj h)
+theorem layersIter_nodup (s : Sprite) : ((List.range s.numLayers).map some).Nodup := by
+  refine List.Pairwise.map some ?_ (List.nodup_range (n := s.numLayers))
+  intro a b hab h
+  exact hab (Option.some.inj h)
 
 theorem layersIter_complete (s : Sprite) (i : Nat) :
     some i ∈ iterate s (s.numLayers + 0) 0 ↔ i < s.numLayers := by
